@@ -7,7 +7,7 @@
    state.  The model's mutex is pathlock's per-name sync.Mutex (trusted to exclude); that the real Open is this
    protocol is checked on every run by replaying the store calls the real cache made under concurrency through the
    model ([C11conc_check]). *)
-From HP Require Import Base.Prelude Cache.Cache Cache.CacheProofs Cache.CacheConc.
+From HP Require Import Base.Prelude Cache.Cache Cache.CacheProofs Cache.CacheConc Cache.CopyBuf Cache.CopyBufProofs.
 Open Scope nat_scope.
 
 (* After ANY history of opens with ANY faults, an Open that succeeds serves the complete source bytes. *)
@@ -107,3 +107,21 @@ Example C11_concurrent_nonvacuous :
   /\ gs_cache st = Some [1;2;3;4;5;6;7]%N /\ gs_mark st = false /\ gs_lock st = None.
 Proof. vm_compute. repeat split. Qed.
 Print Assumptions C11_concurrent_nonvacuous.
+
+(* ---- fills of DIFFERENT names at overlapping times (the per-name lock does not order them): Cache/CopyBuf.v ----
+   Each fill reads a chunk of its source into its own buffer and writes that buffer to its own file; the steps of all
+   fills interleave in any order.  At every moment every file is a prefix of ITS source -- "never a truncated or mixed
+   file" -- and a fill that is done has left exactly its source.  (One buffer shared by all fills breaks the invariant
+   [cp_inv]: a chunk read for one name would be written to another.) *)
+Theorem C11_interleaved_fills_never_mix : forall c srcs sched, 0 < c -> NoDup (map fst srcs) ->
+  let st := cb_run c (cb_start srcs) sched in
+  Forall (fun cp => cb_files st (c_name cp) = firstn (c_pos cp) (c_src cp) /\
+                    (cp_done cp -> cb_files st (c_name cp) = c_src cp)) (cb_copiers st).
+Proof. exact interleaved_fills_never_mix. Qed.
+Print Assumptions C11_interleaved_fills_never_mix.
+
+Example C11_interleaved_fills_nonvacuous :
+  let st := cb_run 2 (cb_start [(0, [1;2;3]%N); (1, [7;8;9;10]%N)]) [0;1;0;1;0;1;0;1;1;0] in
+  cb_files st 0 = [1;2;3]%N /\ cb_files st 1 = [7;8;9;10]%N.
+Proof. exact fills_demo. Qed.
+Print Assumptions C11_interleaved_fills_nonvacuous.
